@@ -14,6 +14,10 @@
 //	  1..3 chunks, "A x A y A ..", two identical halves, over the same (W, n) ranges: DAGs that link
 //	  the same block or subtree from several positions. Case ids "builder:W=..,n=..,content=<class>".
 //
+//	builder side, largest chunk settings (large_test.go): size-1048576 / size-1048575 / size-524288
+//	  and rabin-262144-524288-1048576 on 1..3 MiB of content (leaves of exactly the 1 MiB limit);
+//	  AsBytes + one 64 KiB-buffer stream per reader. Case ids "builder:chunker=..,len=..".
+//
 // Content bytes are pseudo-random from VERIF_SEED (main loop: pairwise distinct chunks).
 package c01
 
@@ -171,6 +175,7 @@ func TestBounded(t *testing.T) {
 	}
 
 	repetitive(t, r)
+	large(t, r, saved)
 
 	maxN := vp.Pick(30, 120)
 	for _, layout := range []string{"balanced", "trickle"} {
